@@ -42,6 +42,9 @@ LEVEL_TEXT = ("Theorems over all line sequences, all option combinations and all
               "with a class-disjointness test proved sound for well-formed characters) at most bound2 r n K; every regex found in the "
               "three parsers is proved (by computation on the regenerated ASTs) to meet A2, hence C12_repo_regexes_bounded: each of "
               "them matches every well-formed subject within bound2 steps; all but numpy._RE_PARAMETER meet A1 itself. "
+              "No hidden state: for every history of parses, assignments to value / parser / parser_options and reads of parsed / lines on "
+              "one docstring, parse returns what a fresh docstring with the current attributes returns (= parse_pure of the current text, "
+              "effective style and options); tied by a stream of histories on one object compared with fresh objects and with the model. "
               "Ties: translator (fail closed), differential runs comparing section kinds, titles, texts, item names / annotation "
               "sources / descriptions and Sphinx field values with Docstring.parse, an oracle stream comparing the model matcher with "
               "CPython's re on every regex, the model-computed line features with CPython's str/re, and adversarial inputs "
@@ -57,7 +60,7 @@ LEVEL_NOTE = ("Trusted: Coq kernel, extraction, CPython's re._parser as front en
               "repaired by fix: commits and kept as must-pass corpus cases. No known finding is left.")
 MODEL = ("Model.C12_run", "run_C12x")
 MODEL_TARGETS = ["Model/C12_run.vo"]
-COQ_TARGETS = ["Proofs/C12_docstrings.vo", "Proofs/C12_regex.vo", "Proofs/C12_regex2.vo", "Proofs/C12_chars.vo"]
+COQ_TARGETS = ["Proofs/C12_docstrings.vo", "Proofs/C12_regex.vo", "Proofs/C12_regex2.vo", "Proofs/C12_chars.vo", "Proofs/C12_history.vo"]
 RULE = ("texts of <=12 lines (some longer) assembled from section keywords, separators, indentation levels, item syntaxes and prose: "
         "(a) exhaustive sequences of <=3 line classes (thorough: <=4) from a 13-letter alphabet per style, (b) seeded random fragment sequences, "
         "(c) structured mostly-valid docstrings per style with seeded perturbations (dropped blank lines, shifted indents), "
@@ -66,6 +69,8 @@ RULE = ("texts of <=12 lines (some longer) assembled from section keywords, sepa
         "shortest text reaching it, a run (30..5000) of its body word or of a character of each class in its body, and a suffix on "
         "which the rest fails, placed in every role (item, annotation, description, continuation, doctest line, plain line) of every "
         "reader; run in a child interpreter under a per-case watchdog and narrowed down to one role when they fail, "
+        "(g) histories on one Docstring object: 3..7 operations (parse with/without style and options, assignments to value / parser / "
+        "parser_options, reads of parsed / lines / source), always ending with a parse, compared with fresh objects and the model; "
         "(f) regex oracle: random words of each regex, damaged words, generator lines -> model matcher vs CPython re; "
         "x parser options: all 2^8/2^3/2^1 combinations on a rotating subset, random combinations elsewhere; x eleven parents "
         "(None, Module, Class.__init__ Function, Function, property Attribute, Function returning None, a visited module with unresolvable and "
@@ -338,7 +343,7 @@ def run_impl(style: str, text: str, opts: dict, parent_kind: str):
     parent = make_parent(parent_kind)
     before_parent = snapshot(parent)
     doc = Docstring(text, parent=parent, lineno=3, endlineno=3 + text.count("\n"))
-    before = (doc.value, doc.lineno, doc.endlineno, doc.parser, dict(doc.parser_options))
+    before = (doc.value, doc.lineno, doc.endlineno, doc.parser, dict(doc.parser_options), sorted(vars(doc)))
     lines = doc.value.split("\n")
     res = {"lines": lines, "problems": [], "canon": None, "status": "ok", "error": None, "where": None, "sections": None,
            "items": None, "pann": parent_annotations(parent)}
@@ -374,7 +379,7 @@ def run_impl(style: str, text: str, opts: dict, parent_kind: str):
         res["canon"] = [canon_section(s) for s in secs]
         res["items"] = [canon_items(s) for s in secs]
     res["sections"] = secs
-    after = (doc.value, doc.lineno, doc.endlineno, doc.parser, dict(doc.parser_options))
+    after = (doc.value, doc.lineno, doc.endlineno, doc.parser, dict(doc.parser_options), sorted(vars(doc)))
     if after != before:
         res["problems"].append(f"docstring modified: {before!r:.80} -> {after!r:.80}")
     if doc.parent is not parent or snapshot(parent) != before_parent:
@@ -1088,6 +1093,239 @@ def regex_oracle(ctx):
                 ctx.tie_failure("oracle", f"model matcher vs CPython re on {key} ({kind})", {"line": l, "model": o, "python": want})
 
 
+# ---------------------------------------------------------------- histories on ONE Docstring object
+DEFAULT_OPTS = dict(zip(OPTS["google"], (False, True, True, True, False, True, True, True)))
+PUBLIC_ATTRS = {"value", "lineno", "endlineno", "parent", "parser", "parser_options"}
+
+
+def gen_history(rng):
+    """initial docstring + 3..7 operations: parse(style?, **options?), value / parser / parser_options assignments, reads of
+    parsed / lines / source; always ends with a parse"""
+    def text():
+        st = rng.choice(STYLES)
+        r = rng.random()
+        return gen_structured(rng, st) if r < 0.6 else gen_frags(rng) if r < 0.8 else rng.choice(["plain words", "", "Just prose.\nMore prose."])
+
+    def opts():
+        return {k: rng.random() < 0.5 for k in OPTS["google"]}
+
+    def style(none=0.3):
+        return None if rng.random() < none else rng.choice(STYLES)
+
+    ops = []
+    for _ in range(rng.randint(2, 6)):
+        r = rng.random()
+        if r < 0.35:
+            ops.append(["parse", style(), opts() if rng.random() < 0.4 else None])
+        elif r < 0.65:
+            ops.append(["setvalue", text()])
+        elif r < 0.75:
+            ops.append(["setparser", style(0.2)])
+        elif r < 0.85:
+            ops.append(["setopts", opts()])
+        elif r < 0.92:
+            ops.append(["parsed"])
+        elif r < 0.97:
+            ops.append(["lines"])
+        else:
+            ops.append(["source"])
+    ops.append(["parse", style(0.15) if rng.random() < 0.8 else None, opts() if rng.random() < 0.3 else None])
+    return {"parent": rng.choice(PARENTS), "text": text(), "parser": style(0.25), "options": opts() if rng.random() < 0.5 else None, "ops": ops}
+
+
+def model_vs_impl(style, lines, pres, canon, items):
+    """One parse observation of the model (history entry) vs the implementation's sections.  None = agree."""
+    if pres[0] == "plain":
+        want = [["text", "\n".join(lines), None]]
+        return None if canon == want else f"no parser: {canon!r:.120} instead of the value as one text section"
+    mo, _feats, details, extra = split_model_output(pres[1])
+    if not (isinstance(mo, list) and mo and mo[0] == "ok"):
+        return f"model result {mo!r:.100}"
+    exp = expected_from_model(style, lines, mo[2])
+    if not sections_agree(style, exp, canon):
+        return f"sections: model {exp!r:.200} vs {canon!r:.200}"
+    if style == "sphinx":
+        return sphinx_disagreement(extra, canon, items)
+    for c, its, dets in zip(canon, items, details):
+        if its is not None:
+            d = items_disagreement(style, c[0], dets, its)
+            if d:
+                return f"{c[0]} items: {d}"
+    return None
+
+
+def run_history(h):
+    """Execute the history on one Docstring; every parse is compared with a FRESH docstring carrying the current attributes.
+    -> (problems, observations for the model comparison, parent annotations)"""
+    import inspect
+    from griffe import Docstring
+    pk = h["parent"]
+    n_lines = h["text"].count("\n")
+    doc = Docstring(h["text"], parent=make_parent(pk), lineno=3, endlineno=3 + n_lines, parser=h["parser"],
+                    parser_options=dict(h["options"]) if h["options"] else None)
+    cur = {"value": doc.value, "parser": h["parser"], "options": dict(h["options"]) if h["options"] else {}}
+    problems, observed = [], []
+    pann = parent_annotations(doc.parent)
+    first_parsed = None
+
+    def fresh():
+        f = Docstring("", parent=make_parent(pk), lineno=3, endlineno=3 + n_lines, parser=cur["parser"],
+                      parser_options=dict(cur["options"]) if cur["options"] else None)
+        f.value = cur["value"]
+        return f
+
+    def canon_of(secs):
+        for sec in secs:
+            p = shape_problem(sec)
+            if p:
+                return None, None, "ill-formed section: " + p
+        return [canon_section(x) for x in secs], [canon_items(x) for x in secs], None
+
+    old = signal.signal(signal.SIGALRM, _alarm)
+    signal.setitimer(signal.ITIMER_REAL, 6.0)
+    try:
+        for k, op in enumerate(h["ops"]):
+            tag = op[0]
+            if tag == "parse":
+                kw = dict(op[2]) if op[2] else {}
+                got, items, p = canon_of(doc.parse(op[1], **kw))
+                want, _, _ = canon_of(fresh().parse(op[1], **kw))
+                if p:
+                    problems.append(f"op {k}: {p}")
+                elif got != want:
+                    problems.append(f"op {k}: parse({op[1]!r}) on the used docstring returns {got!r:.200}; a fresh docstring with the "
+                                    f"same value, parser and options returns {want!r:.200}")
+                style = op[1] or cur["parser"]
+                observed.append((k, style, cur["value"].split("\n"), got, items))
+            elif tag == "setvalue":
+                cur["value"] = inspect.cleandoc(op[1].rstrip())
+                doc.value = cur["value"]
+            elif tag == "setparser":
+                cur["parser"] = op[1]
+                doc.parser = op[1]
+            elif tag == "setopts":
+                cur["options"] = dict(op[1])
+                doc.parser_options = dict(op[1])
+            elif tag == "parsed":
+                secs = doc.parsed
+                if first_parsed is None:
+                    first_parsed = secs
+                    got, items, p = canon_of(secs)
+                    want, _, _ = canon_of(fresh().parse())
+                    if p:
+                        problems.append(f"op {k}: {p}")
+                    elif got != want:
+                        problems.append(f"op {k}: parsed is {got!r:.200}; a fresh docstring gives {want!r:.200}")
+                    observed.append((k, cur["parser"], cur["value"].split("\n"), got, items))
+                else:
+                    if secs is not first_parsed:
+                        problems.append(f"op {k}: parsed is not cached")
+                    observed.append((k, None, None, None, None))
+            elif tag == "lines":
+                if doc.lines != cur["value"].split("\n"):
+                    problems.append(f"op {k}: lines is {doc.lines!r:.120}, the value has the lines {cur['value'].split(chr(10))!r:.120}")
+            elif tag == "source":
+                def src(d):
+                    try:
+                        return ["ok", d.source]
+                    except Exception as e:  # noqa: BLE001
+                        return ["err", type(e).__name__]
+                a, b = src(doc), src(fresh())
+                if a != b:
+                    problems.append(f"op {k}: source {a!r:.100} vs fresh {b!r:.100}")
+            if (doc.value, doc.parser, doc.parser_options) != (cur["value"], cur["parser"], cur["options"]):
+                problems.append(f"op {k} ({tag}): public attributes changed to {(doc.value, doc.parser, doc.parser_options)!r:.160}")
+                break
+        extra_attrs = set(vars(doc)) - PUBLIC_ATTRS - ({"parsed"} if first_parsed is not None else set())
+        if extra_attrs:
+            problems.append(f"hidden state left on the docstring: attributes {sorted(extra_attrs)}")
+    except Watchdog:
+        problems.append("history does not terminate within 6 s")
+    except Exception as e:  # noqa: BLE001
+        problems.append(f"raises {type(e).__name__}: {e}")
+    finally:
+        signal.setitimer(signal.ITIMER_REAL, 0)
+        signal.signal(signal.SIGALRM, old)
+    return problems, observed, pann
+
+
+def history_model_request(h, pann):
+    import inspect
+    from griffe import Docstring
+    def sty(x):
+        return [] if x is None else [x]
+    def ob(o):
+        return [int(bool(o[k])) for k in OPTS["google"]]
+    def ls(t):
+        return [enc_line(l) for l in t.split("\n")]
+    ops = []
+    for op in h["ops"]:
+        if op[0] == "parse":
+            ops.append(["parse", sty(op[1]), [ob(op[2])] if op[2] else []])
+        elif op[0] == "setvalue":
+            ops.append(["setvalue", ls(inspect.cleandoc(op[1].rstrip()))])
+        elif op[0] == "setparser":
+            ops.append(["setparser", sty(op[1])])
+        elif op[0] == "setopts":
+            ops.append(["setopts", ob(op[1])])
+        elif op[0] in ("parsed", "lines"):
+            ops.append([op[0]])
+        # reading `source` does not exist in the model: it looks at the parent's file only
+    pk = h["parent"]
+    init = [ls(Docstring(h["text"]).value), sty(h["parser"]), ob(h["options"] or DEFAULT_OPTS)]
+    return ["history", [int(pk == "init"), int(pk in ("property", "property-tuple"))], pann, init, ops]
+
+
+def history_stream(ctx):
+    """(C)/(direct) on histories: parse must be a function of the CURRENT value, parser and options (Proofs/C12_history.v)."""
+    rng = ctx.rng
+    hs = [gen_history(rng) for _ in range(ctx.budget(2500, 30000))]
+    results = [run_history(h) for h in hs]
+    reqs = [history_model_request(h, r[2]) for h, r in zip(hs, results)] if ctx.driver is not None else []
+    outs = ctx.model(reqs) if reqs else [None] * len(hs)
+    ctx.count("history_done")
+    for h, (problems, observed, _), out in zip(hs, results, outs):
+        ctx.case({"history": h}, True)
+        ctx.count("cases")
+        ctx.observe("stream", "history")
+        ctx.observe("history_ops", len(h["ops"]))
+        for op in h["ops"]:
+            ctx.observe("history_op", op[0])
+        seen_set = False
+        for op in h["ops"]:
+            if op[0] == "setvalue":
+                seen_set = True
+            elif op[0] == "parse" and seen_set:
+                ctx.observe("history_shape", "parse-after-assignment")
+                break
+        for p in problems:
+            ctx.property_failure({"history": h}, {"problem": p})
+        if out is None or problems:
+            continue
+        if out == ["regex-outside-criterion"]:
+            ctx.count("model_refused")
+            continue
+        if not isinstance(out, list) or out == ["bad-input"]:
+            ctx.tie_failure("correspondence", "history: model rejected its input", {"model": out}, {"history": h})
+            continue
+        # the model's observations, in the order of the operations it knows (all but `source`)
+        mobs = iter(out)
+        by_index = {}
+        for k, op in enumerate(h["ops"]):
+            if op[0] != "source":
+                by_index[k] = next(mobs, None)
+        for k, style, lines, canon, items in observed:
+            mo = by_index.get(k)
+            if lines is None or canon is None or mo is None or mo[0] != "parse":
+                continue
+            d = model_vs_impl(style, lines, mo[1], canon, items)
+            ctx.observe("history_check", "differs" if d else "agrees")
+            if d:
+                ctx.tie_failure("correspondence", "history: parse observation (model) vs Docstring.parse", {"op": k, "difference": d},
+                                {"history": h})
+                break
+
+
 # ---------------------------------------------------------------- generators
 FRAGS = ["Args:", "Parameters", "----------", "---", "Returns:", "Returns", "Yields:", "Raises:", "Examples:", "Note:", "Attributes:",
          "Other Parameters", "Receives", "Deprecated", "Warns", "    x: desc", "    x (int): desc", "  y : int, optional", "x : int",
@@ -1345,6 +1583,7 @@ def explore(ctx):
         evaluate(ctx, b, "malformed")
     adversarial_stream(ctx)
     regex_oracle(ctx)
+    history_stream(ctx)
     if not ctx.quick:
         sample = []
         for _ in range(30):
@@ -1379,6 +1618,15 @@ def search(ctx):
                 return True
         return False
 
+    if not ctx.stats["history_done"]:
+        for _ in range(4000):
+            h = gen_history(rng)
+            problems, _, _ = run_history(h)
+            ctx.evaluations += 1
+            for p in problems:
+                ctx.property_failure({"history": h}, {"problem": p})
+            if problems:
+                return
     if not ctx.stats["adversarial_done"]:
         drv, ctx.driver = ctx.driver, None        # implementation only
         try:
@@ -1401,6 +1649,13 @@ def search(ctx):
 def replay(ctx, data):
     logging.getLogger("griffe").setLevel(logging.CRITICAL)
     case = data.get("failing_input") or {}
+    if "history" in case:
+        problems, observed, _ = run_history(case["history"])
+        print("history :", json.dumps(case["history"])[:2000])
+        print("problems:", problems)
+        for o in observed:
+            print("  op", o[0], "style", o[1], "->", o[3])
+        return 0
     if "text" not in case:
         print("replay names no input:", data.get("no_longer_checks"))
         return 0
